@@ -102,8 +102,9 @@ Definition step (cfg : config) (st : table) (i : input) (o : oracles) : table * 
   | Raw None => (st, [], false, 0)       (* ValidateRegistration(nil) = incomplete *)
   end.
 
+(* what the property talks about: probes, shares, announcements, lookups.  Whether parseRegMessage reported an
+   error and how many drafts it returned is internal and compared separately (chk_internal, informational). *)
 Definition obs_matches (st' : table) (ef : list effect) (err : bool) (nd : N) (ob : obs) : bool :=
-  Bool.eqb err (ob_err ob) && (nd =? ob_ndrafts ob) &&
   list_eqb probe_eqb (probes_of ef) (ob_probes ob) &&
   perm_eqb shareview_eqb (map view_share (shares_of ef)) (ob_shares ob) &&
   list_eqb regview_eqb (map view_reg (announces_of ef)) (ob_announces ob) &&
@@ -119,3 +120,12 @@ Fixpoint run (cfg : config) (st : table) (steps : list (input * oracles * obs)) 
 
 Definition case := (config * list (input * oracles * obs))%type.
 Definition chk (c : case) : bool := run (fst c) [] (snd c).
+
+Fixpoint run_internal (cfg : config) (st : table) (steps : list (input * oracles * obs)) : bool :=
+  match steps with
+  | [] => true
+  | (i, o, ob) :: rest =>
+    let '(st', ef, err, nd) := step cfg st i o in
+    Bool.eqb err (ob_err ob) && (nd =? ob_ndrafts ob) && run_internal cfg st' rest
+  end.
+Definition chk_internal (c : case) : bool := run_internal (fst c) [] (snd c).
